@@ -671,6 +671,7 @@ func runC13(c *Ctx) {
 		return
 	}
 	fieldCoverage(c, r1, schemaNodes, writers, "the parser")
+	kindCoverage(c, r1)
 	// ast.Schema fields written by the loader must be read by FormatSchema (and what it calls)
 	fs := p.Func("formatter.(*formatter).FormatSchema")
 	scope := map[*ssa.Function]bool{}
